@@ -1177,6 +1177,14 @@ def array(x, dtype=None, copy=True, **kw):
 asanyarray = asarray
 
 
+def isscalar(x):
+    if is_sym(x):
+        return True
+    if isinstance(x, (SArr, SRec)):
+        return False
+    return rnp.isscalar(x)
+
+
 def atleast_1d(x):
     if isinstance(x, Rec0d):
         return x._rec
